@@ -80,7 +80,7 @@ pub fn value_families(a: &Args, fmts: u8) -> Vec<(&'static str, Vec<Job>)> {
     }
     if let Some(path) = &a.hard {
         v.push(("HARD(q) from gen/hardcases.py", hard_jobs(path, fmts)));
-        v.push(("GAPS: A*2^k+B with zero limb runs, exponent >= 135, moderate stage must decline", gap_jobs(path)));
+        v.push(("GAPS: A*2^k+B with zero limb runs, exponent >= 135, moderate stage must decline; LIMB-EDGE: digits and halfway significand on different sides of a power of 2^64; RIPPLE: the last 19-digit chunk carries through every lower limb up to the halfway bit", gap_jobs(path)));
     }
     v
 }
@@ -88,15 +88,16 @@ pub fn value_families(a: &Args, fmts: u8) -> Vec<(&'static str, Vec<Job>)> {
 /// `str64 <exp> <digits>` lines of the generated file: long integers given as digit strings.
 pub fn gap_jobs(path: &str) -> Vec<Job> {
     let text = std::fs::read_to_string(path).unwrap_or_default();
-    let mut all: Vec<(i32, Vec<u8>)> = Vec::new();
+    let mut all: Vec<(i32, Vec<u8>, &'static str)> = Vec::new();
     for line in text.lines() {
         let mut it = line.split_whitespace();
         if it.next() != Some("str64") {
             continue;
         }
         if let (Some(e), Some(d)) = (it.next(), it.next()) {
+            let label = match it.next() { Some("limbedge") => "LIMB-EDGE", Some("ripple") => "RIPPLE", _ => "GAPS" };
             if let Ok(e) = e.parse::<i32>() {
-                all.push((e, d.as_bytes().to_vec()));
+                all.push((e, d.as_bytes().to_vec(), label));
             }
         }
     }
@@ -104,14 +105,14 @@ pub fn gap_jobs(path: &str) -> Vec<Job> {
     for chunk in all.chunks(8) {
         let chunk = chunk.to_vec();
         jobs.push(Box::new(move |emit: &mut fam::Emit| {
-            for (e, d) in &chunk {
-                fam::emit_placements(emit, d, *e as i64, fam::PL_INT | fam::PL_SCI | fam::PL_MID, "GAPS", fam::MBOTH, None);
+            for (e, d, label) in &chunk {
+                fam::emit_placements(emit, d, *e as i64, fam::PL_INT | fam::PL_SCI | fam::PL_MID, label, fam::MBOTH, None);
                 // one unit either side in the last place, and with a far digit
-                fam::emit_placements(emit, &fam::bump_last(d, true), *e as i64, fam::PL_INT, "GAPS", fam::MBOTH, None);
-                fam::emit_placements(emit, &fam::bump_last(d, false), *e as i64, fam::PL_INT, "GAPS", fam::MBOTH, None);
+                fam::emit_placements(emit, &fam::bump_last(d, true), *e as i64, fam::PL_INT, label, fam::MBOTH, None);
+                fam::emit_placements(emit, &fam::bump_last(d, false), *e as i64, fam::PL_INT, label, fam::MBOTH, None);
                 let mut v = d.clone();
                 v.extend_from_slice(b"0000000000000000000000001");
-                fam::emit_placements(emit, &v, *e as i64 - 25, fam::PL_INT, "GAPS", fam::MBOTH, None);
+                fam::emit_placements(emit, &v, *e as i64 - 25, fam::PL_INT, label, fam::MBOTH, None);
             }
         }));
     }
